@@ -2,6 +2,7 @@
 import os
 import tempfile
 from engine.ob import REPO_SRC  # noqa: E402
+from engine.ob import pick as _pick, flag as _flag  # noqa: F401
 from engine.ob import Obligation, post, reset_tally_caches
 
 LEVEL = 'other'
@@ -165,21 +166,21 @@ def layout(kind, i, focus):
         pre: 0 <= nblank <= 2 and 0 <= comment_i <= 4 and 0 <= where <= 9
         post: _
         """
-        return core(nblank=int(nblank), comment_i=int(comment_i), use_comment=use_comment, where=int(where), crlf=crlf)
+        return core(nblank=_pick(nblank, 3), comment_i=_pick(comment_i, 5), use_comment=use_comment, where=_pick(where, 10), crlf=crlf)
 
     def ob_space(ntrail: int, trail_tab: bool, indent: int, indent_tab: bool, crlf: bool) -> bool:
         """
         pre: 0 <= ntrail <= 2 and 0 <= indent <= 3
         post: _
         """
-        return core(ntrail=int(ntrail), trail_tab=trail_tab, indent=int(indent), indent_tab=indent_tab, crlf=crlf)
+        return core(ntrail=_pick(ntrail, 3), trail_tab=trail_tab, indent=_pick(indent, 4), indent_tab=indent_tab, crlf=crlf)
 
     def ob_keys(case_i: int, perm_i: int, indent: int) -> bool:
         """
         pre: 0 <= case_i <= 2 and 0 <= perm_i <= 23 and 0 <= indent <= 1
         post: _
         """
-        return core(case_i=int(case_i), perm_i=int(perm_i), indent=int(indent))
+        return core(case_i=_pick(case_i, 3), perm_i=_pick(perm_i, 24), indent=_pick(indent, 2))
     return {'lines': ob_lines, 'space': ob_space, 'keys': ob_keys}[focus]
 
 
@@ -210,7 +211,7 @@ def corrupt_merchants(i, how):
         """
         from tally.merchant_engine import parse_merchants, MerchantParseError
         reset_tally_caches()
-        which, pick = int(which), int(pick)
+        which, pick = _pick(which, 3), _pick(pick, 6)
         lines = base.split('\n')
         spans = _rule_spans(base)
         which = which % len(spans)
@@ -267,7 +268,7 @@ def corrupt_views(i, how):
         """
         from tally.section_engine import parse_sections, SectionParseError
         reset_tally_caches()
-        which, pick = int(which), int(pick)
+        which, pick = _pick(which, 2), _pick(pick, 6)
         lines = base.split('\n')
         spans = _rule_spans(base)
         which = which % len(spans)
